@@ -134,6 +134,67 @@ def has_type(t, v):
     return any(has_type(x, v) for x in t[1])
 
 
+def special_forms_block(rep):
+    """destinations that are parametrised but whose origin adaptix does not list among its generics (tuple[...], type[...],
+    Callable[...], ad-hoc subscriptable stdlib classes) against plain source classes that are runtime subclasses of the
+    origin: by the property a value passes unchanged only when the source EQUALS the destination type, is a non-generic
+    subclass of a non-parametrised destination, or the destination is Any.  Every pair below differs in its arguments, so
+    creating the converter must fail - at top level of a field and inside list / dict / Optional."""
+    import collections.abc
+    import typing
+    from typing import Callable, Dict, List, NamedTuple, Optional, Tuple, Type
+
+    from adaptix import ProviderNotFoundError
+    import adaptix.conversion as conv
+
+    class Point(NamedTuple):
+        a: int
+        b: int
+
+    class Pair(tuple):
+        pass
+
+    class Meta(type):
+        pass
+
+    class Fn:
+        def __call__(self, x):
+            return x
+
+    refuse = [
+        ("NamedTuple->tuple[str,str]", Point, Tuple[str, str]), ("NamedTuple->tuple[str,str](builtin)", Point, tuple[str, str]),
+        ("tuple-subclass->tuple[str,str]", Pair, Tuple[str, str]), ("tuple->tuple[str,str]", tuple, Tuple[str, str]),
+        ("tuple[int,int]->tuple[str,str]", Tuple[int, int], Tuple[str, str]),
+        ("tuple-subclass->tuple[str,...]", Pair, Tuple[str, ...]),
+        ("type->type[int]", type, Type[int]), ("metaclass->type[int]", Meta, Type[int]), ("type[str]->type[int]", Type[str], Type[int]),
+        ("callable-class->Callable[[int],str]", Fn, Callable[[int], str]),
+        ("Callable[[str],str]->Callable[[int],int]", Callable[[str], str], Callable[[int], int]),
+        ("list-subclass->list[str]", IntList, List[str]),
+        ("KeysView[int]->KeysView[str]", typing.KeysView[int], typing.KeysView[str]),
+        ("Awaitable[int]->Awaitable[str]", typing.Awaitable[int], typing.Awaitable[str]),
+    ]
+    wrappers = [("field", lambda t: t), ("list", lambda t: List[t]), ("dict-value", lambda t: Dict[str, t]), ("optional", lambda t: Optional[t])]
+    n = 0
+    for label, src, dst in refuse:
+        for wname, wrap in wrappers:
+            Src = make_dataclass("Src", [("x", wrap(src))])
+            Dst = make_dataclass("Dst", [("x", wrap(dst))])
+            n += 1
+            try:
+                conv.ConversionRetort().get_converter(Src, Dst)
+                made = "created"
+            except ProviderNotFoundError:
+                continue
+            except Exception as e:  # noqa: BLE001
+                made = f"raises {type(e).__name__}: {str(e)[:80]}"
+            rep.violation(f"special-form:{label}:{made.split(':')[0]}", "property-violated",
+                          {"what": f"get_converter for a field {wrap(src)} -> {wrap(dst)} ({wname}): {made}; the pair is outside the "
+                                   "implicit coercions (the destination's arguments differ from the source's), so ProviderNotFoundError "
+                                   "is required", "src": str(wrap(src)), "dst": str(wrap(dst))})
+            break
+    return n
+
+
 def run(rep, tier, seed):
     from adaptix import ProviderNotFoundError
     from adaptix.conversion import allow_unlinked_optional, forbid_unlinked_optional, get_converter
@@ -192,6 +253,7 @@ def run(rep, tier, seed):
                       {"what": ("the library produces a converter for a pair outside the documented implicit coercions"
                                 if outcomes[idx] == "1" else "the library refuses a documented implicit coercion"),
                        "src": s, "dst": d, "src_hint": str(py_ty(s)), "dst_hint": str(py_ty(d)), "library": outcomes[idx], "model": got})
+    nspecial = special_forms_block(rep)
     # ---- unlinked fields
     npol = 0
     @dataclass
@@ -321,7 +383,7 @@ def run(rep, tier, seed):
     except ProviderNotFoundError:
         pass
     rep.cov.update({
-        "evaluations": len(pairs) + npol + nhist, "exhaustive": True,
+        "evaluations": len(pairs) + npol + nhist + nspecial, "exhaustive": True,
         "distinct_nontrivial": sum(1 for s, d in pairs if s != d and (s[0] not in ("TCls", "TAny", "TNone") or d[0] not in ("TCls", "TAny", "TNone"))),
         "rule": f"all {len(pairs)} ordered pairs over a pool of {len(P)} field types (6 classes with bool<int and B<A, Any, None, "
                 "lists / dicts with different arguments, optionals, unions incl. unions with None, nestings); converter creation "
